@@ -155,10 +155,28 @@ std::string run(State& s, const Toks& t) {
     if (o == "tmsetP") {
       RowMatrix<double> m(n, n);
       for (size_t i = 0; i < n; ++i) for (size_t j = 0; j < n; ++j) m(i, j) = hexToDouble(t[2 + i * n + j]);
-      dynamic_cast<FullHmmTransitionMatrix&>(M).setTransitionProbabilities(m); return "ok";
+      auto* f = dynamic_cast<FullHmmTransitionMatrix*>(&M); if (!f) return "bad-op";
+      f->setTransitionProbabilities(m); return "ok";
     }
     if (o == "tmpij") { const Matrix<double>& m = M.getPij(); std::vector<double> f; for (size_t i = 0; i < n; ++i) for (size_t j = 0; j < n; ++j) f.push_back(m(i, j)); return hxs(f); }
-    if (o == "tmPij") return hx(M.Pij(toU(t[2]), toU(t[3])));
+    if (o == "tmPij") { if (toU(t[2]) >= n || toU(t[3]) >= n) return "bad-index"; return hx(M.Pij(toU(t[2]), toU(t[3]))); }
+    if (o == "tmall") {
+      // getPij(), every Pij(i,j), getEquilibriumFrequencies() ("pe": the matrix first, "ep": the vector first)
+      std::vector<double> P, Q, E;
+      if (t[2] == "ep") E = M.getEquilibriumFrequencies();
+      { const Matrix<double>& m = M.getPij(); for (size_t i = 0; i < n; ++i) for (size_t j = 0; j < n; ++j) P.push_back(m(i, j)); }
+      if (t[2] != "ep") E = M.getEquilibriumFrequencies();
+      for (size_t i = 0; i < n; ++i) for (size_t j = 0; j < n; ++j) Q.push_back(M.Pij(i, j));
+      return hxs(P) + " ; " + hxs(Q) + " ; " + hxs(E);
+    }
+    if (o == "tmassign") {
+      auto q2 = s.tm.find(t[2]);
+      if (q2 == s.tm.end()) return "no-object";
+      auto* fa = dynamic_cast<FullHmmTransitionMatrix*>(&M); auto* fb = dynamic_cast<FullHmmTransitionMatrix*>(q2->second.get());
+      auto* aa = dynamic_cast<AutoCorrelationTransitionMatrix*>(&M); auto* ab = dynamic_cast<AutoCorrelationTransitionMatrix*>(q2->second.get());
+      if (fa && fb) *fb = *fa; else if (aa && ab) *ab = *aa; else return "class-mismatch";
+      return "ok";
+    }
     if (o == "tmeq") return hxs(M.getEquilibriumFrequencies());
     if (o == "tmnames") { std::string r; for (auto& nm : MP.getParameters().getParameterNames()) r += (r.empty() ? "" : " ") + strToHex(nm); return r.empty() ? "-" : r; }
     if (o == "tmclone") { s.tm[t[2]] = std::shared_ptr<AbstractHmmTransitionMatrix>(dynamic_cast<AbstractHmmTransitionMatrix*>(M.clone())); return "ok"; }
